@@ -481,22 +481,33 @@ package dnsmsg
 //@ func ReleaseMsg(m *Msg)
 //@   props C01 C20
 //@   requires m != nil && forall(k, 0, len(m.Questions), m.Questions[k] != nil) && okRecs(m.Answers) && okRecs(m.Authorities) && okRecs(m.Additionals)
-// frame: the message itself, its own section arrays, and question / record objects (of any message: they are
-// reached through m's arrays only); other messages' headers and section arrays are untouched
-//@   modifies *m, obj(m.Questions), obj(m.Answers), obj(m.Authorities), obj(m.Additionals), field(dnsmsg.Question), field(dnsmsg.ResourceHdr), field(dnsmsg.A), field(dnsmsg.AAAA), field(dnsmsg.MX), field(dnsmsg.NAMEResource), field(dnsmsg.SOA), field(dnsmsg.SRV), field(dnsmsg.RawResource), bytes()
+// frame: the message itself, its own section arrays, and the question / record objects those arrays point to
+// (with their nested arrays); nothing else - in particular no other message and no byte buffer
+//@   modifies *m, obj(m.Questions), obj(m.Answers), obj(m.Authorities), obj(m.Additionals), elems(m.Questions), elems(m.Answers), elems(m.Authorities), elems(m.Additionals)
 //@   ensures [C20:buffers-untouched] rootBytesKept()
 //@   ensures [C20:marks-released] attr(released, m)
 //@   loop 1:
+//@     modifies elems(old(m.Questions))
 //@     invariant forall(k, 0, len(m.Questions), m.Questions[k] != nil) && okRecs(m.Answers) && okRecs(m.Authorities) && okRecs(m.Additionals)
 //@     invariant rootBytesKept()
 //@   loop 2:
-//@     modifies obj(m.Answers), obj(m.Authorities), obj(m.Additionals), field(dnsmsg.ResourceHdr), field(dnsmsg.A), field(dnsmsg.AAAA), field(dnsmsg.MX), field(dnsmsg.NAMEResource), field(dnsmsg.SOA), field(dnsmsg.SRV), field(dnsmsg.RawResource), bytes()
+//@     modifies obj(m.Answers), obj(m.Authorities), obj(m.Additionals), elems(old(m.Answers)), elems(old(m.Authorities)), elems(old(m.Additionals))
 //@     invariant okRecs(m.Answers) && okRecs(m.Authorities) && okRecs(m.Additionals)
 //@     invariant rootBytesKept()
+//@     invariant forall(k, 0, len(m.Answers), m.Answers[k] == nil || m.Answers[k] == old(m.Answers[k]))
+//@     invariant forall(k, 0, len(m.Authorities), m.Authorities[k] == nil || m.Authorities[k] == old(m.Authorities[k]))
+//@     invariant forall(k, 0, len(m.Additionals), m.Additionals[k] == nil || m.Additionals[k] == old(m.Additionals[k]))
 //@   loop 3:
-//@     modifies field(dnsmsg.ResourceHdr), field(dnsmsg.A), field(dnsmsg.AAAA), field(dnsmsg.MX), field(dnsmsg.NAMEResource), field(dnsmsg.SOA), field(dnsmsg.SRV), field(dnsmsg.RawResource), bytes()
+//@     modifies elems(old(m.Answers)), elems(old(m.Authorities)), elems(old(m.Additionals))
 //@     invariant okRecs(rs) && okRecs(m.Answers) && okRecs(m.Authorities) && okRecs(m.Additionals)
 //@     invariant rootBytesKept()
+//@     invariant forall(k, 0, len(m.Answers), m.Answers[k] == nil || m.Answers[k] == old(m.Answers[k]))
+//@     invariant forall(k, 0, len(m.Authorities), m.Authorities[k] == nil || m.Authorities[k] == old(m.Authorities[k]))
+//@     invariant forall(k, 0, len(m.Additionals), m.Additionals[k] == nil || m.Additionals[k] == old(m.Additionals[k]))
+//@     invariant 0 <= rangeindex_2 && rangeindex_2 <= 2
+//@     invariant rangeindex_2 == 0 ==> sameSlice(rs, old(m.Answers), 0, len(rs)) && forall(k, 0, len(rs), rs[k] == nil || rs[k] == old(m.Answers[k]))
+//@     invariant rangeindex_2 == 1 ==> sameSlice(rs, old(m.Authorities), 0, len(rs)) && forall(k, 0, len(rs), rs[k] == nil || rs[k] == old(m.Authorities[k]))
+//@     invariant rangeindex_2 == 2 ==> sameSlice(rs, old(m.Additionals), 0, len(rs)) && forall(k, 0, len(rs), rs[k] == nil || rs[k] == old(m.Additionals[k]))
 
 //@ func UnpackMsg(msg []byte) (m *Msg, err error)
 //@   props C01 C02 C20
@@ -688,13 +699,18 @@ package dnsmsg
 //@     invariant forall(k, i+1, len(m.Additionals), !isOPT(m.Additionals[k]))
 //@     decreases i + 1
 
+// RemoveEDNS0: EDNS0 ends here - afterwards the message has no OPT record at all, however many it had.
 //@ func RemoveEDNS0(m *Msg)
 //@   props C01 C12
-//@   inline
 //@   requires m != nil && wfRecs(m.Additionals)
-//@   modifies *
+//@   modifies m.Additionals, obj(m.Additionals), elems(m.Additionals)
 //@   ensures wfRecs(m.Additionals)
-//@   ensures [C12:single] old(atMostOneOPT(m.Additionals)) ==> noOPT(m.Additionals)
+//@   ensures [C12:every-opt-removed] noOPT(m.Additionals)
+//@   ensures len(m.Additionals) <= old(len(m.Additionals)) && sameSlice(m.Additionals, old(m.Additionals), 0, len(m.Additionals))
+//@   loop 1:
+//@     modifies m.Additionals, obj(m.Additionals), elems(old(m.Additionals))
+//@     invariant wfRecs(m.Additionals) && len(m.Additionals) <= loopOld(len(m.Additionals)) && sameSlice(m.Additionals, loopOld(m.Additionals), 0, len(m.Additionals))
+//@     decreases len(m.Additionals)
 
 // ---- msg.go: Len and Pack ---------------------------------------------------------------------------
 
@@ -750,6 +766,7 @@ package dnsmsg
 //@   ensures [C09:id] err == nil ==> BE16(b, 0) == m.ID
 //@   ensures [C09:opt-kept] err == nil && final(edns0Opt) != nil ==> len(m.Additionals) >= 1 && m.Additionals[len(m.Additionals)-1] == final(edns0Opt) && isOPT(final(edns0Opt))
 //@   ensures [C02:no-reorder] size <= 0 ==> m.Additionals == old(m.Additionals)
+//@   ensures [C02:no-reorder-elements] size <= 0 ==> forall(k, 0, len(m.Additionals), m.Additionals[k] == old(m.Additionals[k]))
 //@   ensures [C20:own-array-kept] m.Additionals == nil || sameObj(m.Additionals, old(m.Additionals)) || fresh(m.Additionals)
 //@   ensures wfMsg(m)
 //@   loop 1:
